@@ -49,7 +49,8 @@ Env == [k |-> <<75, 86>>, pos |-> 3, len |-> 7, msg |-> <<77, 103>>, prefix |-> 
 WideTerm == \E j \in 1..Len(items) : items[j].k = "ph" /\ items[j].hasw /\ Len(items[j].w) >= 4
 
 IsWide(its) == \E j \in 1..Len(its) : its[j].k = "ph" /\ its[j].text \in {K_wide_msg, K_wide_bar}
-LastNl(its) == IF \E j \in 1..Len(its) : its[j].k = "nl" THEN CHOOSE j \in 1..Len(its) : its[j].k = "nl" /\ \A q \in (j + 1)..Len(its) : its[q].k # "nl" ELSE 0
+IsNl(it) == it.k = "nl" \/ (it.k = "lit" /\ \E c \in 1..Len(it.text) : it.text[c] = 10)
+LastNl(its) == IF \E j \in 1..Len(its) : IsNl(its[j]) THEN CHOOSE j \in 1..Len(its) : IsNl(its[j]) /\ \A q \in (j + 1)..Len(its) : ~IsNl(its[q]) ELSE 0
 WideOnLastLine(its) == IsWide(SubSeq(its, LastNl(its) + 1, Len(its)))
 
 Init == cells = <<>> /\ items = <<>> /\ np = 0 /\ nph = 0 /\ done = FALSE
